@@ -163,10 +163,11 @@ func suiteCrash(seed uint64, n int, work string, power bool) {
 	p.Abort, p.Oversize, p.ReadOnly, p.DoneCalls, p.Reopen, p.Txs = 10, 3, 5, 0, 0, 7
 	p.NoSPop = true
 	p.OpsMin, p.OpsMax = 1, 4
+	p.Vals = append(append([]string{}, p.Vals...), strings.Repeat("L", 120), strings.Repeat("M", 260))
 	images, opens := 0, 0
 	for i := 0; i < n; i++ {
 		r := root.Fork()
-		seg := []int{150, 200, 300}[r.Intn(3)]
+		seg := []int{150, 200, 300, 600, 1000}[r.Intn(5)]
 		sync := r.Intn(2)
 		if power {
 			sync = 1
@@ -300,10 +301,14 @@ func suiteCrash(seed uint64, n int, work string, power bool) {
 						emit("#SPEC crash at event %d/%d (%s %s off=%d torn=%d power=%v keepLast=%v inflight=%v): recovered state is neither the state before nor after the in-flight transaction: %s", e, len(events), evOp(events, e), evPath(events, e), evOff(events, e), torn, pl == 1, keepLast, inflight, d)
 					}
 					// continue after recovery: more commits (forcing rotations), clean reopen
-					if okk && images%7 == 0 {
+					if okk && (images%7 == 0 || torn > 100) {
 						cur = rec
 						ok2 := true
-						for t := 0; t < 5 && ok2; t++ {
+						ncont := 5
+						if images%14 == 0 || torn > 100 {
+							ncont = 1 // a single short record over the torn one: its leftover bytes follow
+						}
+						for t := 0; t < ncont && ok2; t++ {
 							rec.run("begin w ?")
 							rec.run(fmt.Sprintf("put %s %s %s 0 1700000000", hx([]byte("zz")), hx([]byte(fmt.Sprintf("c%d", t))), hx([]byte(strings.Repeat("y", 40+t)))))
 							if rec.run("commit") != "ok" {
@@ -319,13 +324,13 @@ func suiteCrash(seed uint64, n int, work string, power bool) {
 						rec.run("close")
 						rec.db = nil
 						if rec.run(optLine(mode, (rwm+1)%2, (lm+1)%2, sync, seg)) != "ok" {
-							emit("#SPEC open-failed after crash at event %d (torn=%d), recovery, 5 further commits and a clean close", e, torn)
+							emit("#SPEC open-failed after crash at event %d (torn=%d), recovery, %d further commits and a clean close", e, torn, ncont)
 						} else {
 							o2 := obsOf(rec)
 							rec.run("begin r ?")
 							g2 := rec.run("getall " + hx([]byte("zz")))
 							rec.run("rollback")
-							if !eqs(o1, o2) || g1 != g2 || !strings.Contains(g2, hx([]byte("c4"))) {
+							if !eqs(o1, o2) || g1 != g2 || !strings.Contains(g2, hx([]byte(fmt.Sprintf("c%d", ncont-1)))) {
 								emit("#SPEC commits made after crash recovery (event %d torn=%d) are lost or changed after a clean reopen: %q vs %q", e, torn, g1, g2)
 							}
 						}
@@ -489,6 +494,12 @@ func diffClass(got, want, calls []string) (nF30 int, real string) {
 			continue
 		}
 		if got[i] == "err" && isEmptyAnswer(want[i]) {
+			nF30++
+			continue
+		}
+		// an empty set key: SHasKey was true, its members (the preceding observation) were empty
+		if i > 0 && i < len(calls) && strings.HasPrefix(calls[i], "shaskey ") && want[i] == "bool 1" && want[i-1] == "list" &&
+			(got[i] == "bool 0" || got[i] == "err") {
 			nF30++
 			continue
 		}
